@@ -408,6 +408,7 @@ def run(chk, repo, tier):
                               'with the wrong rows')
     run_more(chk, repo)
     run_n8(chk, repo)
+    run_n9_n11(chk, repo)
 
 
 def run_more(chk, repo):
@@ -498,3 +499,126 @@ def run_n8(chk, repo):
                       f'are combined by position', line=p.lineno,
                       witness='one bootstrap replicate that lists SIGMA before the OMEGAs: its sigma is averaged with the others\' '
                               'omegas in mean, bias, stderr and percentiles')
+
+
+def run_n9_n11(chk, repo):
+    """N9: competition ranking (rank = 1 + number of strictly better models) of the ranking loop, evaluated on small value
+    lists; N10: the strictness evaluator compares element-wise; N11: each term of the mBIC penalty uses p-quantities or
+    q-quantities, not a mixture"""
+    from sa import iterspace as IS, reach
+    tm = repo.module(RUN)
+    N9 = chk.rule('N9', 'rank_models: ties share a rank and the next rank skips them (1 + number of strictly better models), '
+                        'evaluated on value lists with ties of two and three', floor=3)
+    rk = tm.functions.get('rank_models')
+    if rk is None:
+        raise AnalysisError('rank_models not found')
+    def rank_store(L):
+        # D[...] = r where r is a counter advanced in this loop
+        counters = {a.target.id for a in ast.walk(L) if isinstance(a, ast.AugAssign) and isinstance(a.target, ast.Name)}
+        return next((a for a in L.body if isinstance(a, ast.Assign) and isinstance(a.targets[0], ast.Subscript)
+                     and isinstance(a.value, ast.Name) and a.value.id in counters), None)
+    def has_prev_test(L):
+        # `if value != prev:` ... `prev = value`
+        for c in ast.walk(L):
+            if isinstance(c, ast.Compare) and len(c.ops) == 1 and isinstance(c.ops[0], (ast.NotEq, ast.Eq)) \
+                    and isinstance(c.left, ast.Name) and isinstance(c.comparators[0], ast.Name):
+                a_, b_ = c.left.id, c.comparators[0].id
+                if any(isinstance(x, ast.Assign) and isinstance(x.targets[0], ast.Name) and isinstance(x.value, ast.Name)
+                       and {x.targets[0].id, x.value.id} == {a_, b_} for x in ast.walk(L)):
+                    return True
+        return False
+    loops = [L for L in ast.walk(rk.node) if isinstance(L, ast.For) and rank_store(L) is not None and has_prev_test(L)]
+    if not loops:
+        raise AnalysisError('N9: ranking loop of rank_models not found')
+    L = loops[0]
+    store = rank_store(L)
+    rankdict = unparse(store.targets[0].value)
+    # initialisations directly before the loop (rank, count, prev = 0, 0, None)
+    body = None
+    for parent in ast.walk(rk.node):
+        for fld in ('body', 'orelse'):
+            b = getattr(parent, fld, None)
+            if isinstance(b, list) and L in b:
+                i = b.index(L)
+                body = [s_ for s_ in b[max(0, i - 4):i] if isinstance(s_, ast.Assign) and not isinstance(
+                    s_.value, (ast.Call, ast.ListComp, ast.DictComp))] + [L]
+    if body is None:
+        raise AnalysisError('N9: statements around the ranking loop not found')
+    stub_names = {c.func.id for c in ast.walk(L) if isinstance(c, ast.Call) and isinstance(c.func, ast.Name)}
+    for values in ([10, 20, 20, 30], [10, 20, 20, 20, 30, 40], [5, 5, 7]):
+        # the loop runs over the models from best to worst: the list given is in that order
+        want = [1 + sum(1 for w in values[:i] if w != v) for i, v in enumerate(values)]
+        if isinstance(L.target, ast.Tuple) and len(L.target.elts) == 2:
+            items = [(f'm{i}', v) for i, v in enumerate(values)]
+        else:
+            items = [{'name': f'm{i}', 'value': v} for i, v in enumerate(values)]
+        env = {unparse(L.iter): items, rankdict: {}}
+        for sn in stub_names:
+            env[sn] = lambda m: m['value'] if isinstance(m, dict) else m[1]
+        try:
+            out = IS.run_tail(body, env)
+        except (IS.Unknown, KeyError, TypeError) as e:
+            raise AnalysisError(f'N9: ranking loop not evaluable: {type(e).__name__} {e}')
+        got = [out[rankdict].get(f'm{i}') for i in range(len(values))]
+        chk.instance(N9, f'values {values}: ranks {got} (wanted {want})')
+        if got != want:
+            chk.violation(N9, tm.rel, rk.name, f'values {values}: ranks {got}',
+                          f'a model\'s rank must be 1 + the number of strictly better models ({want})', line=L.lineno,
+                          witness='three candidates with exactly the same criterion value and one worse model: the worse model '
+                                  'gets a rank that is too small')
+    N10 = chk.rule('N10', 'ArrayEvaluator: every comparison holds element-wise (all(e <op> value for e in x)), so that a NaN '
+                          'element fails it', floor=4)
+    ae = tm.classes.get('ArrayEvaluator')
+    if ae is None:
+        raise AnalysisError('ArrayEvaluator not found')
+    OPS = {'__lt__': ast.Lt, '__le__': ast.LtE, '__gt__': ast.Gt, '__ge__': ast.GtE, '__eq__': ast.Eq}
+    for name, op in OPS.items():
+        f = ae.methods.get(name)
+        if f is None:
+            continue
+        rets = [r.value for r in ast.walk(f.node) if isinstance(r, ast.Return) and r.value is not None]
+        ok = False
+        for r in rets:
+            if isinstance(r, ast.Call) and (getattr(r.func, 'id', '') == 'all' or (
+                    isinstance(r.func, ast.Attribute) and r.func.attr == 'all')):
+                cmps = [c for c in ast.walk(r) if isinstance(c, ast.Compare) and len(c.ops) == 1 and isinstance(c.ops[0], op)]
+                ok = ok or bool(cmps)
+        chk.instance(N10, f'ArrayEvaluator.{name}: element-wise all(...) with the matching operator: {ok}')
+        if not ok:
+            chk.violation(N10, tm.rel, f'ArrayEvaluator.{name}', unparse(rets[0])[:80] if rets else 'no return',
+                          'the comparison is not made for every element: max()/min() skip a NaN that is not the first element, '
+                          'so a NaN relative standard error passes `rse < x`', line=f.node.lineno,
+                          witness='a candidate whose RSE of one omega is NaN fulfils the strictness criterion and is ranked')
+    N11 = chk.rule('N11', 'calculate_bic_penalty: each term of the penalty uses the p-quantities (k_p, p, E_p) or the '
+                          'q-quantities (k_q, q, E_q), never a mixture', floor=2)
+    bp = tm.functions.get('calculate_bic_penalty')
+    if bp is None:
+        raise AnalysisError('calculate_bic_penalty not found')
+    cfg = CFG(bp.node)
+    rets = [n for n in cfg.nodes.values() if n.kind == 'return' and n.ast.value is not None]
+    if not rets:
+        raise AnalysisError('N11: return of calculate_bic_penalty not found')
+    e = reach.expand_expr(cfg, rets[-1].id, rets[-1].ast.value)
+
+    def terms(x):
+        if isinstance(x, ast.BinOp) and isinstance(x.op, ast.Add):
+            return terms(x.left) + terms(x.right)
+        return [x]
+    ts = terms(e)
+    if len(ts) < 2:
+        raise AnalysisError(f'N11: penalty is not a sum of two terms: {unparse(e)[:80]}')
+    for t in ts:
+        kinds = set()
+        for x in ast.walk(t):
+            if isinstance(x, ast.Name):
+                if x.id in ('p', 'q'):
+                    kinds.add(x.id)
+                elif x.id.endswith(('_p', '_q')):
+                    kinds.add(x.id[-1])
+        chk.instance(N11, f'term `{unparse(t)[:60]}` uses the {sorted(kinds)} quantities')
+        if len(kinds) != 1:
+            chk.violation(N11, tm.rel, bp.name, unparse(t)[:80],
+                          'the covariance part of the penalty is scaled with the expected number of variances (or the other '
+                          'way round)', line=rets[-1].line,
+                          witness="search_space=['iiv_diag', 'iiv_block'] with E_p=1, E_q=3: the full block penalty is twice "
+                                  "what it should be and the diagonal model is ranked best")
